@@ -116,11 +116,15 @@ func c04Geometry(line string, W, c0 int) string {
 	col := c0
 	rowsOfLine := 1
 	wrapped, straddle, multi, fills := false, false, false, false
+	innerWrapped := false // a line other than the last one wraps
 	for _, r := range rs {
 		if r == '\n' {
 			multi = true
 			if col == W {
 				fills = true
+			}
+			if rowsOfLine > 1 {
+				innerWrapped = true
 			}
 			col = c0
 			rowsOfLine = 1
@@ -151,13 +155,16 @@ func c04Geometry(line string, W, c0 int) string {
 		fills = true
 	}
 	switch {
-	case straddle:
+	case straddle && wrapped:
 		return "wide-glyph-straddles-margin"
 	case multi && c0 < 2:
 		return "multiline-prompt-narrower-than-secondary-prompt"
 	case multi && fills:
 		return "multiline-line-exactly-fills-row"
-	case multi && wrapped:
+	case multi && rowsOfLine > 1:
+		return "multiline-with-wrapped-line"
+	case multi && innerWrapped && strings.Count(line, "\n") >= 2:
+		// the column marks of the lines between the first and the last are stepped one ROW per LINE
 		return "multiline-with-wrapped-line"
 	}
 	return ""
